@@ -113,6 +113,8 @@ class X509(object):
 
         # Get the tbsCertificate
         tbs_certificate = parser.getChild(0)
+        if not tbs_certificate.value:
+            raise SyntaxError("Empty tbsCertificate")
         # Is the optional version field present?
         # This determines which index the key is at.
         if tbs_certificate.value[0] == 0xA0:
